@@ -231,6 +231,10 @@ func (p *ParagraphReader) Next() (*Paragraph, error) {
 
 			/* TrimFunc(line[1:], unicode.IsSpace) is identical to calling
 			 * TrimSpace. */
+			if len(paragraph.Order) == 0 {
+				return nil, fmt.Errorf("Bad line: continuation line '%s' has no field to continue", line)
+			}
+
 			line = strings.TrimRightFunc(line[1:], unicode.IsSpace)
 
 			if line == "." {
@@ -258,6 +262,10 @@ func (p *ParagraphReader) Next() (*Paragraph, error) {
 		/* We'll go ahead and take off any leading spaces */
 		lastKey = strings.TrimSpace(els[0])
 		value := strings.TrimSpace(els[1])
+
+		if _, found := paragraph.Values[lastKey]; found {
+			return nil, fmt.Errorf("Bad line: field '%s' appears twice in one paragraph", lastKey)
+		}
 
 		paragraph.Order = append(paragraph.Order, lastKey)
 		paragraph.Values[lastKey] = value
